@@ -5,7 +5,11 @@ Open Scope string_scope.
 
 (* input circuit, list(c.graph.nodes), [(n, list(c.fanin(n)))], and what cg.tx.ternary returned: (circuit, mapping items) *)
 Inductive case :=
-| CTern (C : Circuit) (nodes : list string) (fos : list (string * list string)) (obs : res (Circuit * list (string * string))).
+| CTern (C : Circuit) (nodes : list string) (fos : list (string * list string)) (obs : res (Circuit * list (string * string)))
+(* second call of a two-call history on ONE Circuit object (call; edit c in place or edit the first result; call again):
+   C, nodes, fos describe the circuit as it is at the second call, obs is the second result, fresh = the second result shares no
+   object (circuit, graph, mapping, attribute dicts) with the first result or with c *)
+| CHist (C : Circuit) (nodes : list string) (fos : list (string * list string)) (obs : res (Circuit * list (string * string))) (fresh : bool).
 
 Definition fo_of (fos : list (string * list string)) : string → list string :=
   let m : gmap string (list string) := list_to_map fos in λ n, default [] (m !! n).
@@ -16,15 +20,15 @@ Definition valid (C : Circuit) : bool :=
 
 (* model = implementation (result graph, name, registry and mapping; or the exception class), and on the property's
    domain the returned graph has the gadget structure for which the semantic theorem is proved *)
-Definition agree (k : case) : bool :=
-  match k with
-  | CTern C nodes fos obs =>
+Definition agree_t (C : Circuit) (nodes : list string) (fos : list (string * list string))
+    (obs : res (Circuit * list (string * string))) : bool :=
       let r := ternary C nodes (fo_of fos) in
       match obs with
       | Ok (R, mp) => bool_decide (r = Ok (R, list_to_map mp)) && (negb (valid C) || shapeb (c_g C) (c_g R) (list_to_map mp))
       | Raise e => bool_decide (r = Raise e)
-      | _ => false end
-  end.
+      | _ => false end.
+Definition agree (k : case) : bool :=
+  match k with CTern C nodes fos obs | CHist C nodes fos obs _ => agree_t C nodes fos obs end.
 
 (* ---- memoising evaluators (any order may be used: the result is certified by consistentb / kconsistentb) ---- *)
 Definition rank_le (r : gmap string nat) (a b : string) : Prop := rank_of r a ≤ rank_of r b.
@@ -61,9 +65,7 @@ Definition sim_ok (c t : circuit) (μ : gmap string string) : bool :=
       forallb (λ n, eqb (v (mu_at μ n)) (bool_decide (k n = TX)) && (v (mu_at μ n) || bool_decide (k n = B (v n)))) dc)
     (subsets (ins ++ mins)).
 
-Definition holds (k : case) : bool :=
-  match k with
-  | CTern C nodes fos obs =>
+Definition holds_t (C : Circuit) (obs : res (Circuit * list (string * string))) : bool :=
       if negb (valid C) then true else      (* outside the property's domain; the outcome is compared by `agree` *)
       match obs with
       | Ok (R, mp) =>
@@ -74,5 +76,9 @@ Definition holds (k : case) : bool :=
           && bool_decide (inputs t = inputs c ∪ list_to_set (mu_at μ <$> elements (inputs c)))
           && bool_decide (size (list_to_set (mu_at μ <$> elements (dom c)) ∪ dom c) = 2 * size c)%nat
           && closedb t && acyclicb c && acyclicb t && sim_ok c t μ
-      | _ => false end
+      | _ => false end.
+Definition holds (k : case) : bool :=
+  match k with
+  | CTern C _ _ obs => holds_t C obs
+  | CHist C _ _ obs fresh => holds_t C obs && fresh     (* judged against the circuit as it is at the second call *)
   end.
